@@ -495,10 +495,15 @@ func vpC04Verify(c *vpC04Call, plan *vpC04Plan, res *vpC04Result) string {
 	if res.streamed && !res.eof {
 		prefixOK = true // partial read / read error: what was read must be a prefix
 	}
-	if plan.Resp.Framing == vpC04FrameIdentity {
+	if plan.Resp.Framing == vpC04FrameIdentity || res.streamed {
 		for _, f := range plan.Faults {
 			if f.Kind == vpC04FaultCloseAt {
-				prefixOK = true // a close-delimited body cut short is indistinguishable from a short body
+				// The origin itself cut this response short. A close-delimited body cut short is
+				// indistinguishable from a short body; and a streamed Content-Length body cut short
+				// ends with a plain io.EOF in fasthttp (streaming.go requestStream.Read passes the
+				// connection's EOF through). Either way the bytes are the call's own: C04 only
+				// demands that what was delivered is a prefix of the call's own body.
+				prefixOK = true
 			}
 		}
 	}
